@@ -19,6 +19,7 @@ import (
 	"github.com/prometheus/client_golang/prometheus"
 	"github.com/prometheus/common/model"
 
+	apiv2 "github.com/prometheus/alertmanager/api/v2"
 	amcommoncfg "github.com/prometheus/alertmanager/config/common"
 	"github.com/prometheus/alertmanager/eventrecorder"
 	"github.com/prometheus/alertmanager/featurecontrol"
@@ -291,24 +292,26 @@ func runCase(t *testing.T, c *Case) result {
 				mk := marker.NewAlertMarker()
 				muted := ih.Mutes(marker.WithContext(ctx, mk), ls)
 				got[j] = muted
-				st := mk.Status(ls.Fingerprint())
+				// what GET /api/v2/alerts reports: predictAlertStatus' marker status through AlertToOpenAPIAlert
+				ga := apiv2.AlertToOpenAPIAlert(&types.Alert{Alert: model.Alert{Labels: ls, StartsAt: now}, UpdatedAt: now}, mk.Status(ls.Fingerprint()), nil, nil)
+				inhBy, state := ga.Status.InhibitedBy, *ga.Status.State
 				by := "(-1)"
 				byIdx := -1
 				switch {
-				case muted && len(st.InhibitedBy) == 1:
-					if k, ok := fpStr[st.InhibitedBy[0]]; ok {
+				case muted && len(inhBy) == 1:
+					if k, ok := fpStr[inhBy[0]]; ok {
 						byIdx = k
 						by = vh.Z(int64(k))
 					} else {
 						by = "999"
-						violate("inhibitedBy-unknown-fingerprint", fmt.Sprintf("%s: inhibitedBy %q is not the fingerprint of any alert ever sent", opDesc, st.InhibitedBy[0]))
+						violate("inhibitedBy-unknown-fingerprint", fmt.Sprintf("%s: inhibitedBy %q is not the fingerprint of any alert ever sent", opDesc, inhBy[0]))
 					}
-				case !muted && len(st.InhibitedBy) == 0:
+				case !muted && len(inhBy) == 0:
 				default:
-					violate("marker-inconsistent-with-verdict", fmt.Sprintf("%s: Mutes(%v)=%v but marker inhibitedBy=%v", opDesc, ls, muted, st.InhibitedBy))
+					violate("marker-inconsistent-with-verdict", fmt.Sprintf("%s: Mutes(%v)=%v but API status inhibitedBy=%v", opDesc, ls, muted, inhBy))
 				}
-				if muted != (st.State == "suppressed") {
-					violate("marker-inconsistent-with-verdict", fmt.Sprintf("%s: Mutes(%v)=%v but marker state=%s", opDesc, ls, muted, st.State))
+				if muted != (state == "suppressed") || (!muted && state != "active") {
+					violate("marker-inconsistent-with-verdict", fmt.Sprintf("%s: Mutes(%v)=%v but API status state=%s", opDesc, ls, muted, state))
 				}
 				if muted && by == "(-1)" {
 					by = "998"
